@@ -52,8 +52,8 @@ type scenario struct {
 // ack-rapid: an ACK with the Rapid Commit option (80) in answer to a DISCOVER that did not ask for it; ack-longsid /
 // nak-longsid: option 54 holds the right server's address followed by four more octets (sent as one 8-octet option or as
 // two instances, which is the same value): not that server's identifier.
-var discKinds = []string{"notype", "badtype", "inform", "offer", "offer", "offer-dup", "offer-wrongxid", "ack-instead", "nak-instead", "ack-rapid", "undecodable", "offer-wronghw", "offer-emptyhw", "offer-request-opcode", "silence"}
-var reqKinds = []string{"notype", "badtype", "inform", "ack", "ack", "nak", "ack-othersid", "ack-nosid", "ack-longsid", "nak-longsid", "offer-again", "ack-wrongxid", "nak-othersid", "undecodable", "silence"}
+var discKinds = []string{"notype", "badtype", "inform", "offer", "offer", "offer-dup", "offer-wrongxid", "ack-instead", "nak-instead", "ack-rapid", "undecodable", "empty", "one-octet", "offer-wronghw", "offer-emptyhw", "offer-request-opcode", "silence"}
+var reqKinds = []string{"notype", "badtype", "inform", "ack", "ack", "nak", "ack-othersid", "ack-nosid", "ack-longsid", "nak-longsid", "offer-again", "ack-wrongxid", "nak-othersid", "undecodable", "empty", "one-octet", "silence"}
 
 func genScenario(rng *rand.Rand, maxServers, maxReact int) scenario {
 	sc := scenario{Bcast: rng.IntN(2) == 0, Cfg: rng.IntN(cli.NCfg), Unicast: rng.IntN(3) == 0}
@@ -90,6 +90,7 @@ type injected struct {
 	yi     [4]byte
 	class  string // valid | dropped (wrong xid/hw/opcode/undecodable)
 	retSeq int64
+	taken  bool // a read of the client's took it off the wire (false: still unread when the client was closed)
 }
 
 type txrec struct {
@@ -206,6 +207,20 @@ func (w *world) datagram(sv *server, si int, kind string, req *ref4.P4) (*inject
 	if n%3 == 0 {
 		p.GatewayIPAddr = net.IP{10, 201, byte(si + 1), 1}
 	}
+	switch n % 4 { // a server that fills in the client-address field of its replies (with the address it hands out, or another)
+	case 1:
+		if p.YourIPAddr != nil {
+			p.ClientIPAddr = append(net.IP{}, p.YourIPAddr.To4()...)
+		}
+	case 3:
+		if n%8 == 3 {
+			p.ClientIPAddr = net.IP{10, 203, byte(si + 1), byte(n)}
+		}
+	}
+	if n%5 == 3 { // relayed replies: hop count, seconds and the broadcast bit as some relay or server left them
+		p.HopCount, p.NumSeconds = 3, 7
+		p.SetBroadcast()
+	}
 	if n%5 < 2 {
 		p.ServerHostName = "boot-server"
 	}
@@ -231,8 +246,15 @@ func (w *world) datagram(sv *server, si int, kind string, req *ref4.P4) (*inject
 		}
 	}
 	b := p.ToBytes()
-	if kind == "undecodable" {
+	switch kind {
+	case "undecodable":
 		b = b[:100]
+		in.class = "dropped"
+	case "empty": // a datagram without payload is a datagram like any other undecodable one
+		b = []byte{}
+		in.class = "dropped"
+	case "one-octet":
+		b = b[:1]
 		in.class = "dropped"
 	}
 	w.mu.Lock()
@@ -310,7 +332,10 @@ func run(t *testing.T, sc scenario) (o outcome) {
 									return
 								}
 								in, b := w.datagram(sv, si, re.Kind, rec.p)
-								conn.Inject(sconn.Datagram{B: b, Nonce: in.nonce, Class: in.class, From: &net.UDPAddr{IP: net.IP(sv.ID[:]), Port: 67}})
+								ok := conn.Inject(sconn.Datagram{B: b, Nonce: in.nonce, Class: in.class, From: &net.UDPAddr{IP: net.IP(sv.ID[:]), Port: 67}})
+								w.mu.Lock()
+								in.taken = ok
+								w.mu.Unlock()
 							}()
 						}
 					}
@@ -387,6 +412,14 @@ func judge(r *mon.Rec, t *testing.T, sc scenario) {
 			return int(p.Opts[53][0])
 		}
 		return -1
+	}
+	// the client keeps reading as long as it is open: whatever arrived (valid, foreign, undecodable, empty) was taken
+	// off the wire before the client was closed
+	for _, in := range o.inj {
+		if !in.taken {
+			bad("datagram-never-read", "datagram %d (kind %s) was still unread when the client was closed: the client had stopped reading", in.nonce, in.kind)
+			return
+		}
 	}
 	// classify transmissions
 	var discovers, requests, renews, releases []txrec
@@ -612,7 +645,7 @@ func shapeOf(sc scenario, outc string) string {
 // enumerate: all tables with <= 2 servers and <= 1 reaction per phase (delays 0 / 150 ms)
 func enumerate() []scenario {
 	var out []scenario
-	dk := []string{"notype", "offer", "offer-wrongxid", "ack-instead", "nak-instead", "undecodable", "silence"}
+	dk := []string{"notype", "offer", "offer-wrongxid", "ack-instead", "nak-instead", "undecodable", "empty", "silence"}
 	rk := []string{"notype", "badtype", "ack", "nak", "ack-othersid", "ack-nosid", "offer-again", "ack-wrongxid", "silence"}
 	mk := func(i int, d, q string, delay int) server {
 		return server{ID: [4]byte{10, 0, byte(i + 1), 1}, Addr: [4]byte{192, 168, byte(i + 1), 50}, AckAddr: [4]byte{192, 168, byte(i + 1), 50},
